@@ -383,11 +383,41 @@ impl StakeScen {
             } else {
                 self.app.wrap().query_balance(st.to_string(), STAKE_DENOM).map(|c| c.amount.u128()).unwrap_or(0)
             };
+        // what no query shows, read from a raw dump of the contract's storage: the stored configuration,
+        // the MEMBERS changelog (by address, then height); plus the recorded heights.  With them the
+        // observation determines the whole state (the Lean driver can rebuild its model after a disagreement).
+        let mut raw = MemStore::default();
+        for (k, v) in self.app.dump_wasm_raw(&st) {
+            raw.data.insert(k, v);
+        }
+        let cfg = match cw4_stake::state::CONFIG.may_load(&raw) {
+            Ok(Some(c)) => format!(
+                "{}/{}/{}",
+                c.tokens_per_weight,
+                c.min_bond,
+                match c.unbonding_period {
+                    cw_utils::Duration::Height(h) => format!("h{h}"),
+                    cw_utils::Duration::Time(t) => format!("t{t}"),
+                }
+            ),
+            _ => "?".to_string(),
+        };
+        let mut mlog: Vec<(String, u64, Option<u64>)> = cw4_stake::state::MEMBERS
+            .changelog()
+            .range(&raw, None, None, cosmwasm_std::Order::Ascending)
+            .filter_map(|r| r.ok())
+            .map(|((a, h), cs)| (a.to_string(), h, cs.old))
+            .collect();
+        mlog.sort();
+        let mlog: Vec<String> = mlog.iter().map(|(a, h, o)| format!("{}@{}:{}", a, h, opt_u64(o))).collect();
+        let mut hrec = self.heights.clone();
+        hrec.sort();
+        let hrec: Vec<String> = hrec.iter().map(|h| h.to_string()).collect();
         // C20 self-check of the listing
         let pool_s: Vec<String> = self.pool.iter().map(|a| a.to_string()).collect();
         let pagediff = paging_audit_cursors("list_members", &|c, l| self.list_members(c, l), &pool_s).unwrap_or_default();
         format!(
-            "obs pagediff={} denom={} stake={} claims={} member={} hist={} members={} total={} admin={} hooks={} rawmember={} rawtotal={} held={} bal={} fheld={}",
+            "obs pagediff={} denom={} stake={} claims={} member={} hist={} members={} total={} admin={} hooks={} rawmember={} rawtotal={} held={} bal={} fheld={} cfg={} hs={} mlog={}",
             pagediff,
             denom,
             stake.join(","),
@@ -402,7 +432,10 @@ impl StakeScen {
             rawtotal,
             self.bal(&st),
             bal.join(","),
-            fheld
+            fheld,
+            cfg,
+            hrec.join(","),
+            mlog.join(",")
         )
     }
 
